@@ -797,12 +797,7 @@ func c17ReAddSeesOnlyThePool(c *eng.Ctx, r *eng.Report) {
 	if !r.Anchor(add != nil && un != nil, rule, "service.(*TxPool).add / UnMarkExecuted") {
 		return
 	}
-	uses := false
-	for _, s := range eng.Sites(un) {
-		if s.Common().StaticCallee() == add {
-			uses = true
-		}
-	}
+	uses := c.ConeOf([]*ssa.Function{un}, func(fn *ssa.Function) bool { return strings.HasSuffix(eng.FuncPkgPath(fn), "/src/service") }).Set[add]
 	if !r.Anchor(uses, rule, "UnMarkExecuted re-adds through (*TxPool).add") {
 		return
 	}
